@@ -173,8 +173,9 @@ impl std::ops::Add for CDDAOffset {
         // if both are already divisible by 588,
         // their added quantities will also
         // be divsible by 588
+        // (offsets read from a file are untrusted: saturate instead of overflowing)
         Self {
-            offset: self.offset + rhs.offset,
+            offset: self.offset.saturating_add(rhs.offset),
         }
     }
 }
